@@ -1,6 +1,715 @@
-//! C08 — not implemented yet.
-use crate::ctx::Ctx;
+//! C08 — collections are lazy, immutable and re-runnable; branches do not interfere.
+//!
+//! Real side: 1..5 REAL OS threads share one `Pipeline` and execute small programs (new source / derive /
+//! join / collect). A cooperative scheduler (installed through `verif_hooks::set_yield_callback`; every
+//! `Pipeline` method yields right before taking the lock, and every operation yields once at its `begin`)
+//! lets exactly one thread run from one yield point to the next, following a *schedule* (list of thread
+//! ids). So an interleaving at lock granularity is replayable and can be ENUMERATED.
+//!
+//! Request  `GRAPH <n> <prog_0> … <prog_{n-1}> <schedule>`  (see lean/IbModel/Driver/D08.lean for the syntax)
+//! Answer   `n=<#nodes> N=<id>:<kind>,… E=<from>-<to>,… T=<per step: thread, lock site, #nodes.#edges after it> t0=<outcomes> …`
+//!          from the real `snapshot()`, the real lock-site trace, the real node ids and the real collect results.
+//! The Lean model replays the same linearisation; the answers must be byte-identical.
+//!
+//! Request  `GINV <#nodes> <ids> <edges>`: a snapshot of the real graph after a FREE-RUNNING (no scheduler,
+//! truly concurrent) build; the model evaluates its graph invariant on it, the harness its own.
+//!
+//! Oracle (independent of the model, of snapshots, ids and the back-walk): every handle carries its
+//! creation-time lineage as a plain Rust expression tree (`Lin`); every collect must equal `eval(lin)`;
+//! every user closure has its own call counter whose final value must equal the number of rows the
+//! lineage evaluations of the collects that contain it feed to it (so: 0 calls from building; no calls
+//! from collects of other branches); node ids pairwise distinct, none lost; edges old→young, in-degree ≤ 1.
+
+use crate::ctx::{Ctx, guarded};
+use ironbeam::node::Node;
+use ironbeam::{PCollection, Pipeline, from_vec};
+use std::cell::RefCell;
+use std::sync::atomic::{AtomicU64, Ordering};
+use std::sync::{Arc, Condvar, Mutex};
+use std::time::Duration;
+
+// ---------------------------------------------------------------------------------------------
+// programs
+
+#[derive(Clone, Copy, Debug, PartialEq)]
+enum Ref { Front(usize), Back(usize), Mine(usize) }
+
+#[derive(Clone, Copy, Debug, PartialEq)]
+enum F { Add(i64), Mul(i64), Rekey(i64), Drop(i64, i64) }
+
+#[derive(Clone, Debug, PartialEq)]
+enum Op {
+    Source(Vec<(i64, i64)>),
+    Derive(Ref, F),
+    Join(Ref, Ref),
+    Collect(Ref, Option<usize>), // None = collect_seq, Some(p) = collect_par(None, Some(p))
+}
+
+fn enc_ref(r: Ref) -> String {
+    match r { Ref::Front(k) => format!("f{k}"), Ref::Back(k) => format!("b{k}"), Ref::Mine(k) => format!("m{k}") }
+}
+fn enc_f(f: F) -> String {
+    match f {
+        F::Add(n) => format!("a{n}"), F::Mul(n) => format!("m{n}"),
+        F::Rekey(m) => format!("k{m}"), F::Drop(m, r) => format!("f{m}.{r}"),
+    }
+}
+fn enc_op(op: &Op) -> String {
+    match op {
+        Op::Source(rows) => format!("S{}", rows.iter().map(|(k, v)| format!("{k}.{v}")).collect::<Vec<_>>().join("_")),
+        Op::Derive(r, f) => format!("D{}/{}", enc_ref(*r), enc_f(*f)),
+        Op::Join(l, r) => format!("J{}/{}", enc_ref(*l), enc_ref(*r)),
+        Op::Collect(r, None) => format!("C{}/s", enc_ref(*r)),
+        Op::Collect(r, Some(p)) => format!("C{}/p{p}", enc_ref(*r)),
+    }
+}
+fn enc_prog(p: &[Op]) -> String {
+    if p.is_empty() { "-".into() } else { p.iter().map(enc_op).collect::<Vec<_>>().join(";") }
+}
+/// atomic steps of an operation when its handles resolve (begin + lock sites)
+fn op_steps(op: &Op) -> usize {
+    match op { Op::Source(_) => 2, Op::Derive(..) => 3, Op::Join(..) => 6, Op::Collect(..) => 4 }
+}
+fn prog_steps(p: &[Op]) -> usize { p.iter().map(op_steps).sum() }
+
+// ---------------------------------------------------------------------------------------------
+// lineage expressions: the oracle's own notion of "what this collection is" (fixed at creation)
+
+type Row = (i64, i64, Option<i64>);
+
+enum Lin {
+    Src(Vec<(i64, i64)>),
+    Map { parent: Arc<Lin>, f: F, actual: Arc<AtomicU64>, expected: AtomicU64 },
+    Join(Arc<Lin>, Arc<Lin>),
+}
+
+fn apply_f(f: F, k: i64, v: i64) -> Option<(i64, i64)> {
+    match f {
+        F::Add(n) => Some((k, v + n)),
+        F::Mul(n) => Some((k, v * n)),
+        F::Rekey(m) => Some(((k + v).rem_euclid(m), v)),
+        F::Drop(m, r) => if v.rem_euclid(m) != r { Some((k, v)) } else { None },
+    }
+}
+
+/// plain-Rust evaluation of a lineage; `count` = also account the closure calls this evaluation implies
+fn eval(l: &Lin, count: bool) -> Vec<Row> {
+    match l {
+        Lin::Src(rows) => rows.iter().map(|(k, v)| (*k, *v, None)).collect(),
+        Lin::Map { parent, f, expected, .. } => {
+            let input = eval(parent, count);
+            if count { expected.fetch_add(input.len() as u64, Ordering::SeqCst); }
+            input.into_iter().filter_map(|(k, v, w)| apply_f(*f, k, v).map(|(k2, v2)| (k2, v2, w))).collect()
+        }
+        Lin::Join(a, b) => {
+            let l = eval(a, count);
+            let r = eval(b, count);
+            let mut out = vec![];
+            for (k, v, _) in &l {
+                for (k2, v2, _) in &r {
+                    if k == k2 { out.push((*k, *v, Some(*v2))); }
+                }
+            }
+            out
+        }
+    }
+}
+
+fn show_rows(mut rows: Vec<Row>) -> String {
+    if rows.is_empty() { return "-".into(); }
+    rows.sort_by_key(|(k, v, w)| (*k, *v, w.unwrap_or(0)));
+    rows.iter()
+        .map(|(k, v, w)| match w { None => format!("{k}.{v}"), Some(w) => format!("{k}.{v}.{w}") })
+        .collect::<Vec<_>>()
+        .join("_")
+}
+
+// ---------------------------------------------------------------------------------------------
+// handles on the real pipeline
+
+#[derive(Clone)]
+enum Coll { KV(PCollection<(i64, i64)>), J(PCollection<(i64, (i64, i64))>) }
+
+#[derive(Clone)]
+struct Handle { coll: Coll, lin: Arc<Lin>, inserted: usize }
+
+impl Handle {
+    fn id(&self) -> u64 {
+        match &self.coll { Coll::KV(c) => c.node_id().raw(), Coll::J(c) => c.node_id().raw() }
+    }
+    fn is_kv(&self) -> bool { matches!(self.coll, Coll::KV(_)) }
+}
+
+fn pick<T: Clone>(l: &[T], k: usize) -> Option<T> {
+    if l.is_empty() { None } else { Some(l[k % l.len()].clone()) }
+}
+fn pick_back<T: Clone>(l: &[T], k: usize) -> Option<T> {
+    if l.is_empty() { None } else { Some(l[l.len() - 1 - (k % l.len())].clone()) }
+}
+fn resolve(pool: &[Handle], own: &[Handle], r: Ref) -> Option<Handle> {
+    match r {
+        Ref::Front(k) => pick(pool, k),
+        Ref::Back(k) => pick_back(pool, k),
+        Ref::Mine(k) => pick_back(own, k).or_else(|| pick_back(pool, k)),
+    }
+}
+fn resolve_kv(pool: &[Handle], own: &[Handle], r: Ref) -> Option<Handle> {
+    let p: Vec<Handle> = pool.iter().filter(|h| h.is_kv()).cloned().collect();
+    let o: Vec<Handle> = own.iter().filter(|h| h.is_kv()).cloned().collect();
+    resolve(&p, &o, r)
+}
+
+struct World {
+    pipeline: Pipeline,
+    pool: Mutex<Vec<Handle>>,
+    /// every closure created: (actual counter, lineage node holding the expected counter)
+    closures: Mutex<Vec<Arc<Lin>>>,
+}
+
+#[derive(Clone, Debug)]
+enum Outcome { Built(u64), Collected(u64, String), Skipped, Panicked }
+
+fn show_outcome(o: &Outcome) -> String {
+    match o {
+        Outcome::Built(id) => format!("B{id}"),
+        Outcome::Collected(x, r) => format!("C{x}:{r}"),
+        Outcome::Skipped => "K".into(),
+        Outcome::Panicked => "P".into(),
+    }
+}
+
+/// the REAL builder / collect calls
+fn derive_real(h: &Handle, f: F, actual: Arc<AtomicU64>) -> Coll {
+    match &h.coll {
+        Coll::KV(c) => match f {
+            F::Drop(..) => Coll::KV(c.clone().filter(move |(k, v): &(i64, i64)| {
+                actual.fetch_add(1, Ordering::SeqCst);
+                apply_f(f, *k, *v).is_some()
+            })),
+            _ => Coll::KV(c.clone().map(move |(k, v): &(i64, i64)| {
+                actual.fetch_add(1, Ordering::SeqCst);
+                apply_f(f, *k, *v).unwrap()
+            })),
+        },
+        Coll::J(c) => match f {
+            F::Drop(..) => Coll::J(c.clone().filter(move |(k, (v, _)): &(i64, (i64, i64))| {
+                actual.fetch_add(1, Ordering::SeqCst);
+                apply_f(f, *k, *v).is_some()
+            })),
+            _ => Coll::J(c.clone().map(move |(k, (v, w)): &(i64, (i64, i64))| {
+                actual.fetch_add(1, Ordering::SeqCst);
+                let (k2, v2) = apply_f(f, *k, *v).unwrap();
+                (k2, (v2, *w))
+            })),
+        },
+    }
+}
+
+fn collect_real(h: &Handle, mode: Option<usize>) -> Result<Vec<Row>, String> {
+    match &h.coll {
+        Coll::KV(c) => {
+            let r = match mode { None => c.clone().collect_seq(), Some(p) => c.clone().collect_par(None, Some(p)) };
+            r.map(|v| v.into_iter().map(|(k, v)| (k, v, None)).collect()).map_err(|e| format!("{e:#}"))
+        }
+        Coll::J(c) => {
+            let r = match mode { None => c.clone().collect_seq(), Some(p) => c.clone().collect_par(None, Some(p)) };
+            r.map(|v| v.into_iter().map(|(k, (v, w))| (k, v, Some(w))).collect()).map_err(|e| format!("{e:#}"))
+        }
+    }
+}
+
+/// what one collect observed vs. what its creation-time lineage says
+struct CollectObs { tid: usize, node: u64, real: String, want: String }
+
+/// run one operation of a thread on the real pipeline (after its `begin` yield)
+fn exec_op(w: &World, own: &mut Vec<Handle>, op: &Op, tid: usize, obs: &Mutex<Vec<CollectObs>>) -> Outcome {
+    let pool_now: Vec<Handle> = w.pool.lock().unwrap().clone();
+    let publish = |h: Handle, own: &mut Vec<Handle>| {
+        let id = h.id();
+        w.pool.lock().unwrap().push(h.clone());
+        own.push(h);
+        Outcome::Built(id)
+    };
+    match op {
+        Op::Source(rows) => {
+            let rows2 = rows.clone();
+            let p = w.pipeline.clone();
+            match guarded(move || from_vec(&p, rows2)) {
+                Ok(c) => publish(Handle { coll: Coll::KV(c), lin: Arc::new(Lin::Src(rows.clone())), inserted: 1 }, own),
+                Err(_) => Outcome::Panicked,
+            }
+        }
+        Op::Derive(r, f) => {
+            let Some(h) = resolve(&pool_now, own, *r) else { return Outcome::Skipped };
+            let actual = Arc::new(AtomicU64::new(0));
+            let lin = Arc::new(Lin::Map { parent: h.lin.clone(), f: *f, actual: actual.clone(), expected: AtomicU64::new(0) });
+            w.closures.lock().unwrap().push(lin.clone());
+            let f2 = *f;
+            match guarded(|| derive_real(&h, f2, actual)) {
+                Ok(coll) => publish(Handle { coll, lin, inserted: 1 }, own),
+                Err(_) => Outcome::Panicked,
+            }
+        }
+        Op::Join(l, r) => {
+            let (Some(a), Some(b)) = (resolve_kv(&pool_now, own, *l), resolve_kv(&pool_now, own, *r)) else {
+                return Outcome::Skipped;
+            };
+            let (Coll::KV(ca), Coll::KV(cb)) = (&a.coll, &b.coll) else { return Outcome::Skipped };
+            match guarded(|| ca.join_inner(cb)) {
+                Ok(c) => publish(Handle { coll: Coll::J(c), lin: Arc::new(Lin::Join(a.lin.clone(), b.lin.clone())), inserted: 2 }, own),
+                Err(_) => Outcome::Panicked,
+            }
+        }
+        Op::Collect(r, mode) => {
+            let Some(h) = resolve(&pool_now, own, *r) else { return Outcome::Skipped };
+            let real = match guarded(|| collect_real(&h, *mode)) {
+                Ok(Ok(rows)) => show_rows(rows),
+                Ok(Err(e)) => format!("ERR-{}", e.split_whitespace().take(3).collect::<Vec<_>>().join("-")),
+                Err(_) => "PANIC".to_string(),
+            };
+            // the oracle's value: the creation-time lineage alone (also accounts the closure calls it implies)
+            let want = show_rows(eval(&h.lin, true));
+            obs.lock().unwrap().push(CollectObs { tid, node: h.id(), real: real.clone(), want });
+            Outcome::Collected(h.id(), real)
+        }
+    }
+}
+
+// ---------------------------------------------------------------------------------------------
+// cooperative scheduler
+
+/// one granted atomic step: who, through which lock site, and the real graph size right after it
+struct Step { tid: usize, site: &'static str, nodes: usize, edges: usize }
+struct St { parked: Vec<Option<&'static str>>, done: Vec<bool>, grant: Option<usize> }
+struct Sched { m: Mutex<St>, cv: Condvar }
+
+thread_local! {
+    static CUR: RefCell<Option<(Arc<Sched>, usize)>> = const { RefCell::new(None) };
+}
+
+fn yield_here(site: &'static str) {
+    // only the pipeline's own lock sites (and the harness' `begin`) are scheduling points of this model
+    if site != "begin" && !site.starts_with("pipeline:") { return; }
+    let cur = CUR.with(|c| c.borrow().clone());
+    if let Some((s, t)) = cur { s.park(t, site); }
+}
+
+impl Sched {
+    fn new(n: usize) -> Arc<Sched> {
+        Arc::new(Sched { m: Mutex::new(St { parked: vec![None; n], done: vec![false; n], grant: None }), cv: Condvar::new() })
+    }
+    fn park(&self, t: usize, site: &'static str) {
+        let mut g = self.m.lock().unwrap();
+        g.parked[t] = Some(site);
+        self.cv.notify_all();
+        while g.grant != Some(t) { g = self.cv.wait(g).unwrap(); }
+        g.grant = None;
+        g.parked[t] = None;
+    }
+    fn finish(&self, t: usize) {
+        let mut g = self.m.lock().unwrap();
+        g.done[t] = true;
+        self.cv.notify_all();
+    }
+    /// follow `plan` (entries of finished threads are skipped; afterwards lowest live thread first);
+    /// returns the linearisation that actually happened, or None on a hang
+    fn drive(&self, plan: &[usize], probe: &dyn Fn() -> (usize, usize)) -> Option<Vec<Step>> {
+        let mut trace: Vec<Step> = vec![];
+        let mut pos = 0;
+        loop {
+            let mut g = self.m.lock().unwrap();
+            let quiescent = |g: &St| g.grant.is_none() && (0..g.done.len()).all(|t| g.done[t] || g.parked[t].is_some());
+            while !quiescent(&g) {
+                let (g2, to) = self.cv.wait_timeout(g, Duration::from_secs(20)).unwrap();
+                g = g2;
+                if to.timed_out() && !quiescent(&g) { return None; }
+            }
+            // everybody is parked or done: nobody holds the pipeline lock; look at what the last step did
+            if let Some(last) = trace.last_mut() { let (n, e) = probe(); last.nodes = n; last.edges = e; }
+            if g.done.iter().all(|d| *d) { return Some(trace); }
+            while pos < plan.len() && g.done[plan[pos]] { pos += 1; }
+            let t = if pos < plan.len() { pos += 1; plan[pos - 1] } else { (0..g.done.len()).find(|t| !g.done[*t]).unwrap() };
+            trace.push(Step { tid: t, site: g.parked[t].unwrap(), nodes: 0, edges: 0 });
+            g.grant = Some(t);
+            self.cv.notify_all();
+        }
+    }
+}
+
+fn site_code(s: &str) -> char {
+    match s {
+        "begin" => 'b',
+        "pipeline:insert_node" => 'i',
+        "pipeline:connect" => 'c',
+        "pipeline:snapshot" => 's',
+        "pipeline:record_metrics_start" => 'm',
+        "pipeline:record_metrics_end" => 'e',
+        _ => '?',
+    }
+}
+
+// ---------------------------------------------------------------------------------------------
+// one history
+
+struct HistoryResult {
+    trace: Option<Vec<Step>>, // None = hang (scheduled mode only)
+    outs: Vec<Vec<Outcome>>,
+    obs: Vec<CollectObs>,
+    world: Arc<World>,
+}
+
+/// run `progs` on fresh real threads sharing a fresh pipeline; `plan = Some(schedule)`: cooperative,
+/// `None`: free-running (truly concurrent, started together)
+fn run_history(progs: &[Vec<Op>], plan: Option<&[usize]>, with_metrics: bool) -> HistoryResult {
+    let n = progs.len();
+    let world = Arc::new(World { pipeline: Pipeline::default(), pool: Mutex::new(vec![]), closures: Mutex::new(vec![]) });
+    if with_metrics { world.pipeline.set_metrics(ironbeam::metrics::MetricsCollector::new()); }
+    let sched = Sched::new(n);
+    let obs = Arc::new(Mutex::new(Vec::<CollectObs>::new()));
+    let outs = Arc::new(Mutex::new(vec![Vec::<Outcome>::new(); n]));
+    let start = Arc::new(std::sync::Barrier::new(n));
+    let scheduled = plan.is_some();
+    let mut joins = vec![];
+    for (t, prog) in progs.iter().enumerate() {
+        let (world, sched, obs, outs, prog, start) = (world.clone(), sched.clone(), obs.clone(), outs.clone(), prog.clone(), start.clone());
+        joins.push(std::thread::spawn(move || {
+            struct Fin(Arc<Sched>, usize);
+            impl Drop for Fin { fn drop(&mut self) { CUR.with(|c| *c.borrow_mut() = None); self.0.finish(self.1); } }
+            let _fin = Fin(sched.clone(), t);
+            if scheduled { CUR.with(|c| *c.borrow_mut() = Some((sched.clone(), t))); } else { start.wait(); }
+            let mut own: Vec<Handle> = vec![];
+            for op in &prog {
+                yield_here("begin");
+                let o = exec_op(&world, &mut own, op, t, &obs);
+                outs.lock().unwrap()[t].push(o);
+            }
+        }));
+    }
+    let probe = || { let (n, e) = world.pipeline.snapshot(); (n.len(), e.len()) };
+    let trace = match plan { Some(p) => sched.drive(p, &probe), None => Some(vec![]) };
+    if trace.is_some() { for j in joins { let _ = j.join(); } }
+    let outs = outs.lock().unwrap().clone();
+    let obs = std::mem::take(&mut *obs.lock().unwrap());
+    HistoryResult { trace, outs, obs, world }
+}
+
+struct Snap { ids: Vec<u64>, kinds: Vec<char>, edges: Vec<(u64, u64)> }
+
+fn snap(p: &Pipeline) -> Snap {
+    let (nodes, edges) = p.snapshot();
+    let mut v: Vec<(u64, char)> = nodes
+        .iter()
+        .map(|(id, n)| (id.raw(), match n { Node::Source { .. } => 'S', Node::Stateless(_) => 'T', Node::CoGroup { .. } => 'G', _ => 'O' }))
+        .collect();
+    v.sort();
+    Snap { ids: v.iter().map(|x| x.0).collect(), kinds: v.iter().map(|x| x.1).collect(), edges: edges.iter().map(|(a, b)| (a.raw(), b.raw())).collect() }
+}
+
+fn dash(v: Vec<String>) -> String { if v.is_empty() { "-".into() } else { v.join(",") } }
+
+/// the graph facts the property states, evaluated on the real snapshot: one node per insert with pairwise
+/// distinct ids (none lost/overwritten), edges between existing distinct nodes, in-degree <= 1
+fn graph_ok(s: &Snap, inserts: usize) -> Result<(), String> {
+    let mut ids = s.ids.clone();
+    ids.dedup();
+    if ids.len() != s.ids.len() || ids.len() != inserts {
+        return Err(format!("{} nodes with ids {:?} after {inserts} inserts (ids must be pairwise distinct, none lost)", s.ids.len(), s.ids));
+    }
+    for (f, t) in &s.edges {
+        if f == t || ids.binary_search(f).is_err() || ids.binary_search(t).is_err() {
+            return Err(format!("edge {f}->{t} does not join two existing distinct nodes"));
+        }
+    }
+    let mut tos: Vec<u64> = s.edges.iter().map(|e| e.1).collect();
+    tos.sort();
+    if tos.windows(2).any(|w| w[0] == w[1]) { return Err("a node has two incoming edges".into()); }
+    Ok(())
+}
+
+/// oracle checks shared by the scheduled and the free-running mode
+fn check_oracle(cx: &mut Ctx, i: usize, res: &HistoryResult, s: &Snap) {
+    // node ids: one per insert, pairwise distinct
+    let mut inserts = 0usize;
+    let mut built: Vec<u64> = vec![];
+    let mut panics = 0;
+    for o in res.outs.iter().flatten() {
+        match o { Outcome::Built(id) => built.push(*id), Outcome::Panicked => panics += 1, _ => {} }
+    }
+    for h in res.world.pool.lock().unwrap().iter() {
+        inserts += h.inserted;
+    }
+    if panics > 0 { cx.oracle_fail(i, "operation-panicked", format!("{panics} operations panicked")); }
+    let mut b2 = built.clone();
+    b2.sort();
+    b2.dedup();
+    if b2.len() != built.len() { cx.oracle_fail(i, "node-ids-not-distinct", format!("handles returned by builders share an id: {built:?}")); }
+    if panics == 0 {
+        if let Err(e) = graph_ok(s, inserts) { cx.oracle_fail(i, "graph-invariant-broken", e); }
+    }
+    // every collect equals the value of its creation-time lineage
+    for o in &res.obs {
+        if o.real != o.want {
+            cx.oracle_fail(i, "collect-differs-from-lineage", format!("thread {} collect of node {}: got {} want {}", o.tid, o.node, o.real, o.want));
+            break;
+        }
+    }
+    // laziness / no interference: each closure was called exactly as often as the collects containing it imply
+    let mut total_calls = 0;
+    for l in res.world.closures.lock().unwrap().iter() {
+        if let Lin::Map { actual, expected, f, .. } = &**l {
+            let (a, e) = (actual.load(Ordering::SeqCst), expected.load(Ordering::SeqCst));
+            total_calls += a;
+            if a != e {
+                let sig = if res.obs.is_empty() { "user-code-ran-while-building" } else { "closure-calls-differ-from-lineage" };
+                cx.oracle_fail(i, sig, format!("closure {f:?}: called {a} times, its collects imply {e}"));
+                break;
+            }
+        }
+    }
+    if res.obs.is_empty() { cx.count("history:build-only(0 closure calls required)"); }
+    cx.count_n("closure calls observed", total_calls);
+}
+
+fn one_scheduled(cx: &mut Ctx, progs: &[Vec<Op>], plan: &[usize], tag: &str) {
+    let with_metrics = tag == "random" && plan.len() % 3 == 0;
+    if with_metrics { cx.count("random:pipeline has a metrics collector"); }
+    let res = run_history(progs, Some(plan), with_metrics);
+    let n = progs.len();
+    let Some(trace) = res.trace.as_ref() else {
+        let req = format!("GRAPH {n} {} {}", progs.iter().map(|p| enc_prog(p)).collect::<Vec<_>>().join(" "),
+            plan.iter().map(|t| t.to_string()).collect::<String>());
+        let i = cx.case(req, "HANG".into(), true);
+        cx.oracle_fail(i, "hang", "a thread never reached its next yield point".into());
+        return;
+    };
+    let s = snap(&res.world.pipeline);
+    let sched_s: String = if trace.is_empty() { "-".into() } else { trace.iter().map(|st| st.tid.to_string()).collect() };
+    let trace_s: String = if trace.is_empty() { "-".into() } else { trace.iter().map(|st| format!("{}{}{}.{}", st.tid, site_code(st.site), st.nodes, st.edges)).collect() };
+    let req = format!("GRAPH {n} {} {sched_s}", progs.iter().map(|p| enc_prog(p)).collect::<Vec<_>>().join(" "));
+    let mut real = format!(
+        "n={} N={} E={} T={trace_s}",
+        s.ids.len(),
+        dash(s.ids.iter().zip(&s.kinds).map(|(i, k)| format!("{i}:{k}")).collect()),
+        dash(s.edges.iter().map(|(a, b)| format!("{a}-{b}")).collect())
+    );
+    for (t, o) in res.outs.iter().enumerate() {
+        real.push_str(&format!(" t{t}={}", dash(o.iter().map(show_outcome).collect())));
+    }
+    let collects = res.obs.len();
+    let i = cx.case(req, real, n >= 2 && trace.len() >= 4);
+    cx.count(&format!("{tag}:threads={n}"));
+    cx.count_n(&format!("{tag}:atomic steps"), trace.len() as u64);
+    cx.count_n(&format!("{tag}:collects"), collects as u64);
+    let mut switches = 0;
+    for w in trace.windows(2) { if w[0].tid != w[1].tid { switches += 1; } }
+    cx.count_n(&format!("{tag}:context switches"), switches);
+    check_oracle(cx, i, &res, &s);
+}
+
+fn one_free(cx: &mut Ctx, progs: &[Vec<Op>]) {
+    let res = run_history(progs, None, false);
+    let s = snap(&res.world.pipeline);
+    let mut inserts = 0usize;
+    for h in res.world.pool.lock().unwrap().iter() { inserts += h.inserted; }
+    // next_id is not observable; the model is asked whether the snapshot is a legal graph with `inserts` nodes
+    let real = if graph_ok(&s, inserts).is_ok() { "T" } else { "F" };
+    let req = format!("GINV {inserts} {} {}", dash(s.ids.iter().map(|x| x.to_string()).collect()),
+        dash(s.edges.iter().map(|(a, b)| format!("{a}-{b}")).collect()));
+    let i = cx.case(req, real.into(), true);
+    cx.count(&format!("free-running:threads={}", progs.len()));
+    cx.count_n("free-running:collects", res.obs.len() as u64);
+    check_oracle(cx, i, &res, &s);
+}
+
+// ---------------------------------------------------------------------------------------------
+// generators
+
+fn gen_rows(cx: &mut Ctx) -> Vec<(i64, i64)> {
+    let n = *cx.rng.pick(&[0usize, 1, 2, 3, 4, 6]);
+    (0..n).map(|_| (cx.rng.range(0, 2), cx.rng.range(-4, 9))).collect()
+}
+fn gen_ref(cx: &mut Ctx) -> Ref {
+    let k = cx.rng.below(4);
+    match cx.rng.below(5) { 0 | 1 => Ref::Front(k), 2 | 3 => Ref::Back(k), _ => Ref::Mine(k) }
+}
+fn gen_f(cx: &mut Ctx) -> F {
+    match cx.rng.below(6) {
+        0 | 1 => F::Add(cx.rng.range(-3, 5)),
+        2 => F::Mul(*cx.rng.pick(&[2i64, 3, -1])),
+        3 => F::Rekey(cx.rng.range(1, 3)),
+        _ => { let m = cx.rng.range(2, 3); F::Drop(m, cx.rng.range(0, m - 1)) }
+    }
+}
+fn gen_op(cx: &mut Ctx) -> Op {
+    match cx.rng.below(10) {
+        0 => Op::Source(gen_rows(cx)),
+        1 | 2 | 3 => Op::Derive(gen_ref(cx), gen_f(cx)),
+        4 | 5 => Op::Join(gen_ref(cx), gen_ref(cx)),
+        _ => { let r = gen_ref(cx); let m = if cx.rng.chance(1, 3) { Some(1 + cx.rng.below(3)) } else { None }; Op::Collect(r, m) }
+    }
+}
+
+/// all interleavings of two threads with `a` and `b` steps, after `pre` steps of thread 0
+fn interleavings(pre: usize, a: usize, b: usize) -> Vec<Vec<usize>> {
+    fn go(a: usize, b: usize, cur: &mut Vec<usize>, out: &mut Vec<Vec<usize>>) {
+        if a == 0 && b == 0 { out.push(cur.clone()); return; }
+        if a > 0 { cur.push(1); go(a - 1, b, cur, out); cur.pop(); }
+        if b > 0 { cur.push(2); go(a, b - 1, cur, out); cur.pop(); }
+    }
+    let mut out = vec![];
+    let mut cur = vec![0; pre];
+    go(a, b, &mut cur, &mut out);
+    out
+}
+fn binom(n: usize, k: usize) -> usize {
+    let mut r = 1usize;
+    for i in 0..k.min(n - k) { r = r * (n - i) / (i + 1); }
+    r
+}
+
+fn src(rows: &[(i64, i64)]) -> Op { Op::Source(rows.to_vec()) }
 
 pub fn run(cx: &mut Ctx) {
-    cx.notes.push("C08: harness not implemented".to_string());
+    ironbeam::verif_hooks::set_yield_callback(Some(Arc::new(|site| yield_here(site))));
+    let base = vec![(0i64, 1i64), (1, 2), (0, 3), (1, 4)];
+    let prefix = vec![src(&base), Op::Derive(Ref::Front(0), F::Add(1))];
+    let pre_steps = prog_steps(&prefix);
+
+    // (1) corpus / design witnesses: sequential re-collection, ancestors after descendants, siblings
+    {
+        let p0 = vec![
+            src(&base), Op::Derive(Ref::Front(0), F::Mul(2)), Op::Collect(Ref::Front(0), None),
+            Op::Derive(Ref::Front(0), F::Drop(2, 0)), Op::Collect(Ref::Front(0), Some(2)), Op::Collect(Ref::Front(1), None),
+            Op::Join(Ref::Front(1), Ref::Front(2)), Op::Collect(Ref::Back(0), None), Op::Collect(Ref::Front(0), None),
+            Op::Collect(Ref::Back(0), Some(3)), Op::Source(vec![(0, 9)]), Op::Collect(Ref::Front(2), None),
+        ];
+        let plan = vec![0; prog_steps(&p0)];
+        one_scheduled(cx, &[p0], &plan, "corpus");
+        // a collect of the parent racing with a sibling's insert/connect, strictly alternating
+        let a = vec![Op::Derive(Ref::Front(0), F::Mul(3)), Op::Collect(Ref::Mine(0), None)];
+        let b = vec![Op::Collect(Ref::Front(0), None), Op::Collect(Ref::Front(1), Some(2))];
+        let mut plan = vec![0; pre_steps];
+        for _ in 0..8 { plan.push(1); plan.push(2); }
+        one_scheduled(cx, &[prefix.clone(), a, b], &plan, "corpus");
+        // empty source, join with itself
+        let p1 = vec![Op::Source(vec![]), Op::Join(Ref::Front(0), Ref::Front(0)), Op::Collect(Ref::Back(0), None), Op::Collect(Ref::Front(0), None)];
+        let plan = vec![0; prog_steps(&p1)];
+        one_scheduled(cx, &[p1], &plan, "corpus");
+    }
+
+    // (2) exhaustive small scope: for every ordered pair of single operations from a 7-letter alphabet
+    //     (thread 1 runs the first, thread 2 the second, after a 2-operation prefix), ALL interleavings of
+    //     their atomic steps; then selected multi-operation pairs, all interleavings (up to a cap).
+    let alpha: Vec<Op> = vec![
+        Op::Source(vec![(0, 7), (1, 8)]),
+        Op::Derive(Ref::Front(0), F::Mul(2)),
+        Op::Derive(Ref::Back(0), F::Drop(2, 0)),
+        Op::Join(Ref::Front(0), Ref::Back(0)),
+        Op::Collect(Ref::Front(0), None),
+        Op::Collect(Ref::Back(0), None),
+        Op::Collect(Ref::Back(0), Some(2)),
+    ];
+    let mut n_sched = 0usize;
+    for a in &alpha {
+        for b in &alpha {
+            for plan in interleavings(pre_steps, op_steps(a), op_steps(b)) {
+                one_scheduled(cx, &[prefix.clone(), vec![a.clone()], vec![b.clone()]], &plan, "exhaustive-1x1");
+                n_sched += 1;
+            }
+        }
+    }
+    cx.exhaustive_blocks.push(format!(
+        "2 worker threads x 1 operation each: all {} ordered pairs over a 7-operation alphabet (source, 2 derives, join, 3 collects) after a 2-operation prefix, ALL interleavings of their lock-granular steps ({n_sched} schedules)",
+        alpha.len() * alpha.len()));
+    let multi: Vec<(Vec<Op>, Vec<Op>)> = vec![
+        (vec![Op::Derive(Ref::Front(0), F::Mul(2)), Op::Collect(Ref::Mine(0), None)], vec![Op::Derive(Ref::Back(0), F::Add(5))]),
+        (vec![Op::Derive(Ref::Front(0), F::Mul(2)), Op::Collect(Ref::Front(0), None)], vec![Op::Collect(Ref::Front(0), Some(2))]),
+        (vec![Op::Join(Ref::Front(0), Ref::Front(1)), Op::Collect(Ref::Mine(0), None)], vec![Op::Derive(Ref::Front(1), F::Rekey(2))]),
+        (vec![Op::Source(vec![(1, 1)]), Op::Collect(Ref::Back(0), None)], vec![Op::Derive(Ref::Back(0), F::Drop(2, 1)), Op::Collect(Ref::Mine(0), None)]),
+        (vec![Op::Derive(Ref::Front(0), F::Add(2)), Op::Derive(Ref::Mine(0), F::Mul(3)), Op::Collect(Ref::Mine(1), None)], vec![Op::Collect(Ref::Back(0), None)]),
+        (vec![Op::Join(Ref::Front(0), Ref::Back(0))], vec![Op::Join(Ref::Back(0), Ref::Front(0))]),
+        (vec![Op::Derive(Ref::Front(0), F::Mul(2)), Op::Collect(Ref::Mine(0), None)], vec![Op::Derive(Ref::Front(0), F::Add(3)), Op::Collect(Ref::Mine(0), None)]),
+        (vec![Op::Derive(Ref::Front(0), F::Mul(2)), Op::Derive(Ref::Mine(0), F::Add(1)), Op::Collect(Ref::Mine(0), None)],
+         vec![Op::Derive(Ref::Back(0), F::Add(3)), Op::Join(Ref::Front(0), Ref::Mine(0)), Op::Collect(Ref::Front(1), None)]),
+    ];
+    let cap = cx.budget(400, 4000);
+    let mut n_multi = 0usize;
+    let mut capped = 0usize;
+    for (a, b) in &multi {
+        let (sa, sb) = (prog_steps(a), prog_steps(b));
+        let total = binom(sa + sb, sa);
+        if total <= cap {
+            for plan in interleavings(pre_steps, sa, sb) {
+                one_scheduled(cx, &[prefix.clone(), a.clone(), b.clone()], &plan, "exhaustive-multi");
+                n_multi += 1;
+            }
+        } else {
+            capped += 1;
+            for _ in 0..cap {
+                let mut plan = vec![0; pre_steps];
+                let (mut ra, mut rb) = (sa, sb);
+                while ra + rb > 0 {
+                    if cx.rng.below(ra + rb) < ra { plan.push(1); ra -= 1; } else { plan.push(2); rb -= 1; }
+                }
+                one_scheduled(cx, &[prefix.clone(), a.clone(), b.clone()], &plan, "sampled-multi");
+            }
+        }
+    }
+    cx.exhaustive_blocks.push(format!(
+        "{} hand-picked pairs of 1-3-operation programs: ALL interleavings where there are at most {cap} ({n_multi} schedules); {capped} larger pairs sampled uniformly ({cap} schedules each)",
+        multi.len()));
+
+    // (3) random: 2..4 worker threads x <= 6 operations, random schedules with varying burstiness
+    let rounds = cx.budget(400, 16000);
+    for _ in 0..rounds {
+        let workers = 2 + cx.rng.below(3);
+        let mut progs = vec![];
+        let mut pre = vec![Op::Source(gen_rows(cx))];
+        for _ in 0..cx.rng.below(3) { pre.push(gen_op(cx)); }
+        progs.push(pre);
+        for _ in 0..workers {
+            let len = 1 + cx.rng.below(6);
+            progs.push((0..len).map(|_| gen_op(cx)).collect::<Vec<_>>());
+        }
+        let mut remaining: Vec<usize> = progs.iter().map(|p| prog_steps(p)).collect();
+        let mut plan = vec![];
+        let interleave_prefix = cx.rng.chance(1, 5);
+        if !interleave_prefix { plan.extend(std::iter::repeat(0).take(remaining[0])); remaining[0] = 0; }
+        let stick = cx.rng.below(4); // 0 = switch at every step with high probability … 3 = long bursts
+        let mut cur = 1;
+        while remaining.iter().sum::<usize>() > 0 {
+            if remaining[cur % progs.len()] == 0 || cx.rng.below(stick + 1) == 0 {
+                let live: Vec<usize> = (0..progs.len()).filter(|t| remaining[*t] > 0).collect();
+                cur = *cx.rng.pick(&live);
+            }
+            let t = cur % progs.len();
+            plan.push(t);
+            remaining[t] -= 1;
+        }
+        one_scheduled(cx, &progs, &plan, "random");
+    }
+
+    // (4) free-running: no scheduler, real concurrency (what the cooperative runs cannot show: a critical
+    //     section that was split in two). Many short builders racing, then collects.
+    ironbeam::verif_hooks::set_yield_callback(None);
+    let rounds = cx.budget(60, 1200);
+    for r in 0..rounds {
+        let workers = 2 + cx.rng.below(3);
+        let mut progs = vec![];
+        for _ in 0..workers {
+            let mut p = vec![Op::Source(gen_rows(cx))];
+            let len = if r % 3 == 0 { 40 } else { 6 + cx.rng.below(10) };
+            for _ in 0..len {
+                p.push(match cx.rng.below(8) {
+                    0 => Op::Source(gen_rows(cx)),
+                    1..=4 => Op::Derive(gen_ref(cx), F::Add(cx.rng.range(-2, 2))),
+                    5 => Op::Join(gen_ref(cx), gen_ref(cx)),
+                    _ => Op::Collect(gen_ref(cx), None),
+                });
+            }
+            progs.push(p);
+        }
+        one_free(cx, &progs);
+    }
+    cx.notes.push("free-running cases are truly concurrent: their request lines (the snapshot) depend on the OS schedule, their verdicts do not".into());
 }
